@@ -464,6 +464,24 @@ func c17effect(p *core.Prog, g, perCall, eff, fold *ssa.Function, doNew map[stri
 					continue
 				}
 				for _, u := range *cx.Referrers() {
+					// the context must outlive the reading of the response body: a cancel deferred in (or called at the end
+					// of) a helper that returns before the decoder runs aborts bodies that are still streaming
+					if ci, isCI := u.(ssa.CallInstruction); isCI && ci.Common().Value == ssa.Value(cx) {
+						if dec := p.Func(p.Network, "decodeResponseBody"); dec != nil {
+							for _, fd := range core.DeepFind(p, eff, func(ins ssa.Instruction) bool {
+								c2, isC2 := ins.(*ssa.Call)
+								return isC2 && core.Callee(&c2.Call) == dec
+							}) {
+								frames := map[*ssa.Function]bool{fd.Ins.Parent(): true}
+								for _, sc := range fd.Stack {
+									frames[sc.Parent()] = true
+								}
+								if !frames[u.Parent()] {
+									return false, "the request context is cancelled (in " + core.FuncName(u.Parent()) + ") before the response body is read and decoded: a body that is still being received comes back as 'context canceled'"
+								}
+							}
+						}
+					}
 					if call, isCall := u.(*ssa.Call); isCall && call.Call.Value == ssa.Value(cx) {
 						// a plain (non-deferred) call of cancel: must not come before the request / the helper call leading to it
 						at := ssa.Instruction(req)
